@@ -28,6 +28,9 @@ func (e *E2eProcessingLatencyAggregate) UnmarshalJSON(b []byte) error {
 	}
 
 	for _, p := range resp.Percentiles {
+		if p == nil {
+			continue
+		}
 		p["min"] = p["value"]
 		p["max"] = p["value"]
 		p["average"] = p["value"]
